@@ -1,3 +1,4 @@
+mod c03;
 mod enc;
 mod fd;
 mod fmt;
@@ -25,6 +26,17 @@ unsafe impl GlobalAlloc for Counting {
         // hard cap (VH_HEAP_CAP bytes, default 12 GiB): a runaway allocation of the code under test ends this process
         // (allocation failure -> abort) instead of the sandbox
         if LIVE.load(Ordering::Relaxed) + l.size() > CAP.load(Ordering::Relaxed) {
+            let c = c03::CURRENT_CASE.load(Ordering::Relaxed);
+            if c != u64::MAX {
+                // C03 run: name the case and stop (printing allocates nothing this way)
+                use std::io::Write;
+                let mut buf = [0u8; 64];
+                let mut cur = std::io::Cursor::new(&mut buf[..]);
+                let _ = write!(cur, "{{\"heapcap\": {}, \"request\": {}}}\n", c, l.size());
+                let n = cur.position() as usize;
+                let _ = std::io::stdout().write_all(&buf[..n]);
+                std::process::exit(4);
+            }
             return std::ptr::null_mut();
         }
         let p = System.alloc(l);
@@ -98,6 +110,7 @@ fn main() {
         "c05exec" => fd::c05exec(rest),
         "c05case" => fd::c05case(rest),
         "c11exec" => fd::c11exec(rest),
+        "c03exec" => c03::c03exec(rest),
         "c14rows" => fmt::c14rows(rest),
         "c12dec" => fsex::c12dec(rest),
         "c12enc" => fsex::c12enc(rest),
